@@ -319,6 +319,9 @@ func (c *checkCtx) runSchedHot(prop string, build string, nPlans int, soft strin
 	if prop == "C13" {
 		kflag = "13"
 	}
+	if prop == "C11" {
+		kflag = "11"
+	}
 	nproc := c.Par
 	var jobs [][]string
 	for w := 0; w < nproc; w++ {
@@ -339,7 +342,7 @@ func (c *checkCtx) absorbSched(w WorkerRun, prop, build string, agg *schedAgg) (
 		case "begin":
 			json.Unmarshal(d["pos"], &lastBegin)
 		case "result":
-			agg.add(d, prop == "C12")
+			agg.add(d, prop != "C13")
 		case "sample-plan":
 			if len(agg.Samples) < 3 {
 				agg.Samples = append(agg.Samples, d["plan"])
